@@ -2952,7 +2952,14 @@ static EntryTableDArray bufr_csv_read_tabled (EntryTableDArray addr_tabled, cons
       fxy2 = atoi( tok );
       if ( fxy1 == descriptors[0] )
          {
-         descriptors[count++] = fxy2;
+         if (count < (int)(sizeof(descriptors)/sizeof(descriptors[0])))
+            descriptors[count++] = fxy2;
+         else
+            {
+            sprintf( errmsg, _("Warning: Table D sequence %d has too many descriptors, ignoring line %d\n"),
+                     fxy1, lineno );
+            bufr_print_debug( errmsg );
+            }
          }
       else if (count > 1)
          {
